@@ -131,7 +131,7 @@ let holds _ case impl =
             | _ -> []) in
           if not_announced <> [] then
             Printf.sprintf "fail notification #%d (%s): transaction %s of the connected block is still in the rebuilt mempool (no MempoolTransactionsRemovedForBlock for it, outside initial block download)" k (List.nth (words evpart) k) (tname e (List.hd not_announced))
-          else
+          else begin
           (* the one known deviation: a removal (expiry / sizelimit) of a transaction the subscriber does not hold and that was
              never reported added -- the strict subscriber rejects it, the tolerant one ignores it *)
           (match ev, Model.sub_step false st ev with
@@ -148,6 +148,7 @@ let holds _ case impl =
              (match h with
               | Some hh when hh <> exp_h -> Printf.sprintf "fail notification #%d (%s) reports height %d, the rebuilt chain has %d" k (List.nth (words evpart) k) hh exp_h
               | _ -> go st' r (k + 1) nmark strict_ok))
+          end
         | Mark (chain, pool) :: r ->
           let sub_chain = List.filter (fun n -> n <> "?") (List.map (fun (b, _) -> bname e b) st.Model.ss_chain) in
           let sub_pool = List.sort compare (List.map (tname e) st.Model.ss_pool) in
